@@ -483,20 +483,24 @@ public:
     inline void process_assertion(statement_t &s) {
       assert(s.is_assert() || s.is_ref_assert() || s.is_bool_assert());
       
-      auto it = m_assert_map.find(&s);
-      if (it != m_assert_map.end())
-        return;
-
       var_dom_t vdom = var_dom_t::bottom();
       auto const &l = s.get_live();
       for (auto v : boost::make_iterator_range(l.uses_begin(), l.uses_end())) {
         vdom += v;
       }
 
-      unsigned id = m_assert_map.size();
-      assert_wrapper_t val(id, &s);
-      m_assert_map.insert(typename assert_map_t::value_type(&s, val));
-      m_sol.get_first().set(val, vdom);
+      // The assertion gets its id the first time it is seen, but the
+      // fact "s depends on its uses" is generated every time s is
+      // visited: another sweep of the solver or another analysis of
+      // the same function (recursive functions are analyzed several
+      // times) must produce it again.
+      auto it = m_assert_map.find(&s);
+      if (it == m_assert_map.end()) {
+        unsigned id = m_assert_map.size();
+        assert_wrapper_t val(id, &s);
+        it = m_assert_map.insert(typename assert_map_t::value_type(&s, val)).first;
+      }
+      m_sol.get_first().set(it->second, vdom);
       CRAB_LOG("assertion-crawler-step", crab::outs()
                                              << "*** " << s << "\n"
                                              << "\tAdded " << vdom << "\n";);
